@@ -125,7 +125,33 @@ impl Iterator for CountIter {
 }
 pub type CountStream = chumsky::input::Stream<CountIter>;
 pub type BoxedCharStream = chumsky::input::BoxedStream<'static, char>;
-pub type IoBytes = chumsky::input::IoInput<std::io::Cursor<Vec<u8>>>;
+/// the reader behind every `IoInput` of the harness: seekable, hands out at most two bytes per call and answers every third
+/// call with `ErrorKind::Interrupted` — a transient condition any `Read` may report and every caller has to retry
+pub struct Flaky {
+    inner: std::io::Cursor<Vec<u8>>,
+    calls: usize,
+}
+impl Flaky {
+    pub fn new(bytes: Vec<u8>) -> Self {
+        Flaky { inner: std::io::Cursor::new(bytes), calls: 0 }
+    }
+}
+impl std::io::Read for Flaky {
+    fn read(&mut self, buf: &mut [u8]) -> std::io::Result<usize> {
+        self.calls += 1;
+        if self.calls % 3 == 0 {
+            return Err(std::io::ErrorKind::Interrupted.into());
+        }
+        let n = buf.len().min(2);
+        self.inner.read(&mut buf[..n])
+    }
+}
+impl std::io::Seek for Flaky {
+    fn seek(&mut self, pos: std::io::SeekFrom) -> std::io::Result<u64> {
+        self.inner.seek(pos)
+    }
+}
+pub type IoBytes = chumsky::input::IoInput<Flaky>;
 pub type MappedIo = chumsky::input::MappedInput<char, Sp, IoBytes, fn(u8) -> (char, Sp)>;
 pub fn io_pair(b: u8) -> (char, Sp) {
     (b as char, Sp::from(b as usize..b as usize + 1))
@@ -506,6 +532,8 @@ pub fn build<'src, I: HInput<'src>, E: HErr<'src, I>>(g: &G, cx: &Cx<'src, I, E>
             })
             .bx()
         }
+        // harness-only: the span handed to a SUCCEEDING `try_map` closure (the model-known equivalent is `mwspan`)
+        G::TryMapSpan(a) => b(a).try_map(|v, span| Ok(Val::pair(v, Val::span(span)))).bx(),
         G::TryMapW(p, msg, tag, a) => {
             let (p, msg, tag) = (p.clone(), *msg, *tag);
             b(a).try_map_with(move |v, e| {
